@@ -159,6 +159,49 @@ class Fn:
                 break
         return chain, callees, None
 
+    SKIP_ADAPTORS = ('std::iter::Iterator::filter', 'std::iter::Iterator::filter_map', 'std::iter::Iterator::skip_while')
+    STOP_ADAPTORS = ('std::iter::Iterator::take_while', 'std::iter::Iterator::map_while')
+
+    def exit_profile(self):
+        """(early exits, skips) of the loops of this function on the canonical (lowered) control-flow graph:
+        early exits = edges that leave a loop from anywhere but the loop's own test (Fn.loop_test) - break, return, `?`,
+        the hit of a lowered any / all / find / position - plus take_while adaptors;  skips = back edges beyond one per
+        loop (`continue`, and the not-selected branch of a lowered consumer) plus filter adaptors."""
+        early = skips = 0
+        for head, body in self.loops().items():
+            chain, callees, sw = self.loop_test(head)
+            for b in body:
+                for s_ in self.succ[b]:
+                    if s_ not in body and b != sw and not self.is_try_switch(b):
+                        early += 1
+            backs = [b for b in body if head in self.succ[b]]
+            skips += max(0, len(backs) - 1)
+        for _, c, *_rest in self.calls():
+            n = self.callee_name(c) or ''
+            if n in self.SKIP_ADAPTORS:
+                skips += 1
+            elif n in self.STOP_ADAPTORS:
+                early += 1
+        return early, skips
+
+    def is_try_switch(self, b):
+        """block b switches on the result of `Try::branch` (the `?` operator): its way out propagates a callee's error,
+        it is not a shortcut somebody can add without a fallible callee being there"""
+        blk = self.blocks[b]
+        if blk['term'][0] != 'switch':
+            return False
+        src = None
+        for s_ in blk['stmts']:
+            if s_[0] == 'assign' and s_[2][0] == 'discr':
+                src = s_[2][1]['l']
+        if src is None:
+            return False
+        for p_ in self.pred[b]:
+            t = self.blocks[p_]['term']
+            if t[0] == 'call' and (self.callee_name(t[1]) or '').endswith('std::ops::Try>::branch') and t[3]['l'] == src:
+                return True
+        return False
+
     def calls(self):
         """yield (bb, call-dict, args, dest, target, line, from_expansion)"""
         for i, b in enumerate(self.blocks):
